@@ -334,12 +334,60 @@ func (s *Sim) runShadows(p *Pkt) *shadowResult {
 			return s.adminOnBranch(ctx, &executortypes.MsgPauseAction{Signer: auth, ActionId: "ACTION_FEE"})
 		}, false, s.recvCB(full, pkt, rel))
 		s.Stats.Count("shadow_executions")
+		// the same end states reached through a longer message history on the branch
+		pm := &executortypes.MsgPauseAction{Signer: auth, ActionId: "ACTION_FEE"}
+		um := &executortypes.MsgUnpauseAction{Signer: auth, ActionId: "ACTION_FEE"}
+		res.V["actionhistory-paused"] = s.runVariant("actionhistory-paused", func(ctx sdk.Context) error {
+			seq := []sdk.Msg{pm, um, pm}
+			if paused {
+				seq = []sdk.Msg{um, pm}
+			}
+			for _, m := range seq {
+				if err := s.adminOnBranch(ctx, m); err != nil {
+					return err
+				}
+			}
+			return nil
+		}, false, s.recvCB(full, pkt, rel))
+		res.V["actionhistory-unpaused"] = s.runVariant("actionhistory-unpaused", func(ctx sdk.Context) error {
+			seq := []sdk.Msg{pm, um}
+			if paused {
+				seq = []sdk.Msg{um, pm, um}
+			}
+			for _, m := range seq {
+				if err := s.adminOnBranch(ctx, m); err != nil {
+					return err
+				}
+			}
+			return nil
+		}, false, s.recvCB(full, pkt, rel))
+		s.Stats.Count("shadow_executions")
+		s.Stats.Count("shadow_executions")
 	}
 	if in.Canon && hasShadow(prof, "limitup") {
 		res.V["limitup"] = s.runVariant("limitup", func(ctx sdk.Context) error {
 			return s.adminOnBranch(ctx, &adaptertypes.MsgUpdateParams{Signer: auth, Params: adaptertypes.Params{MaxPassthroughPayloadSize: 4294967295}})
 		}, false, s.recvCB(full, pkt, rel))
 		s.Stats.Count("shadow_executions")
+		// the boundary, per packet: limit set (on the branch) to exactly the passthrough length, and to one less
+		n := uint32(len(in.Payload.Passthrough))
+		res.V["limitexact"] = s.runVariant("limitexact", func(ctx sdk.Context) error {
+			// first away from the target value, so that the last value set is what must be in force
+			if err := s.adminOnBranch(ctx, &adaptertypes.MsgUpdateParams{Signer: auth, Params: adaptertypes.Params{MaxPassthroughPayloadSize: n + 7}}); err != nil {
+				return err
+			}
+			return s.adminOnBranch(ctx, &adaptertypes.MsgUpdateParams{Signer: auth, Params: adaptertypes.Params{MaxPassthroughPayloadSize: n}})
+		}, false, s.recvCB(full, pkt, rel))
+		s.Stats.Count("shadow_executions")
+		if n > 0 {
+			res.V["limitminus"] = s.runVariant("limitminus", func(ctx sdk.Context) error {
+				if err := s.adminOnBranch(ctx, &adaptertypes.MsgUpdateParams{Signer: auth, Params: adaptertypes.Params{MaxPassthroughPayloadSize: n + 7}}); err != nil {
+					return err
+				}
+				return s.adminOnBranch(ctx, &adaptertypes.MsgUpdateParams{Signer: auth, Params: adaptertypes.Params{MaxPassthroughPayloadSize: n - 1}})
+			}, false, s.recvCB(full, pkt, rel))
+			s.Stats.Count("shadow_executions")
+		}
 	}
 	return res
 }
@@ -454,7 +502,7 @@ func (s *Sim) checkShadow(m *txMeta, p *Pkt, in *PktInfo, mo *MsgObs, ack AckInf
 			// the set-up applies, on a branch of the committed state, an authority message that the model says is
 			// valid right now (pause what is not paused, unpause what is paused, raise the limit): a refusal means the
 			// chain's answer does not follow from its committed state (e.g. state kept outside the store)
-			prop := map[string]string{"actionflip": "C09", "unpaused": "C08", "extrapause": "C08", "limitup": "C18", "pausehistory-unpause-smaller": "C08", "pausehistory-unpause-larger": "C08"}[v.Name]
+			prop := map[string]string{"actionflip": "C09", "unpaused": "C08", "extrapause": "C08", "limitup": "C18", "pausehistory-unpause-smaller": "C08", "pausehistory-unpause-larger": "C08", "limitexact": "C18", "limitminus": "C18", "actionhistory-paused": "C09", "actionhistory-unpaused": "C09"}[v.Name]
 			if prop == "" {
 				panic(harnessErr("shadow %s set-up failed for packet op=%d: %s", v.Name, p.Origin, v.SetupErr))
 			}
@@ -612,6 +660,23 @@ func (s *Sim) checkShadow(m *txMeta, p *Pkt, in *PktInfo, mo *MsgObs, ack AckInf
 			_ = other
 		}
 	}
+	if hp, hu := sh.V["actionhistory-paused"], sh.V["actionhistory-unpaused"]; hp != nil && hu != nil && sh.V["actionflip"] != nil {
+		s.Stats.Count("rule:C09.branch-history")
+		paused := model.PausedAct["ACTION_FEE"]
+		asPaused, asUnpaused := base, sh.V["actionflip"]
+		if !paused {
+			asPaused, asUnpaused = sh.V["actionflip"], base
+		}
+		if pl.HasFee && hp.Success {
+			s.violate("C09", "enforcement", "accepted-while-action-paused after a pause/unpause/pause history", fmt.Sprintf("packet op=%d", p.Origin))
+		}
+		if string(hp.Ack) != string(asPaused.Ack) && hp.Success != asPaused.Success {
+			s.violate("C09", "state-depends-only-on-current-set", "paused-via-history-differs-from-paused", fmt.Sprintf("packet op=%d: %.120s vs %.120s", p.Origin, hp.Ack, asPaused.Ack))
+		}
+		if hu.Success != asUnpaused.Success || (hu.Success && !sameStrs(relDeltas(hu.Deltas), relDeltas(asUnpaused.Deltas))) {
+			s.violate("C09", "state-depends-only-on-current-set", "unpaused-via-history-differs-from-unpaused", fmt.Sprintf("packet op=%d: %.120s vs %.120s", p.Origin, hu.Ack, asUnpaused.Ack))
+		}
+	}
 	// ---- C18: refused here and accepted with the limit raised => the limit was the reason => must be over
 	if v := sh.V["limitup"]; v != nil {
 		s.Stats.Count("rule:C18.twin")
@@ -630,6 +695,18 @@ func (s *Sim) checkShadow(m *txMeta, p *Pkt, in *PktInfo, mo *MsgObs, ack AckInf
 		}
 		if !over && base.Success != v.Success {
 			s.Stats.Probe("limit_twin_differs_within_limit")
+		}
+		if ex := sh.V["limitexact"]; ex != nil {
+			s.Stats.Count("rule:C18.branch-boundary")
+			if ex.Success != v.Success {
+				s.violate("C18", "within-limit-never-refused-for-size", "limit-equal-to-length-behaves-differently-from-unlimited", fmt.Sprintf("packet op=%d: passthrough %d bytes: with the limit set to exactly that %.120s, with the limit raised %.120s", p.Origin, len(pl.Passthrough), ex.Ack, v.Ack))
+			}
+		}
+		if mi := sh.V["limitminus"]; mi != nil {
+			s.Stats.Count("rule:C18.branch-boundary")
+			if mi.Success {
+				s.violate("C18", "enforcement", "accepted-with-limit-one-below-length", fmt.Sprintf("packet op=%d: passthrough %d bytes accepted although the limit was last set to %d", p.Origin, len(pl.Passthrough), len(pl.Passthrough)-1))
+			}
 		}
 	}
 }
